@@ -1,5 +1,5 @@
 (* Properties/C10.v — every dynamic node is evaluated exactly once. *)
-From AY Require Import Model.Eval Proofs.EvalInv.
+From AY Require Import Model.Eval Proofs.EvalInv Proofs.EvalCover.
 
 (* During one build no !call / !bind / !eval node runs twice, however many references, arguments or expressions consume it,
    and whatever ran has its result recorded (so that all consumers get it). For every tree, graph of references and order of keys. *)
@@ -29,6 +29,22 @@ Proof.
 Qed.
 Print Assumptions C10_same_object.
 
+(* ... and at least once: a successful build has reached EVERY node of the evaluated tree (each has a recorded result), and
+   every dynamic node of it (!call / !bind / !eval / f-string) has run. With C10_at_most_once: exactly once - for every
+   well-formed tree (unique keys, lists numbered from 0: WFT_WF), every graph of references, every order of keys. *)
+Theorem C10_exactly_once : forall pe fe t v st, WF (recopy t) -> config pe fe t = Ok (v, st) ->
+  NoDup (dyn_paths (log st)) /\
+  forall q m, In (q, m) (nwp [] (recopy t)) ->
+    lookup_path q (done st) <> None /\ (is_dyn m = true -> In q (dyn_paths (log st))).
+Proof.
+  intros pe fe t v st Hwf H. split; [exact (proj1 (config_at_most_once pe fe t v st H))|]. exact (config_covers pe fe t v st Hwf H).
+Qed.
+Print Assumptions C10_exactly_once.
+
+Theorem C10_wellformed_trees : forall t, WFT t -> WF t.
+Proof. exact WFT_WF. Qed.
+Print Assumptions C10_wellformed_trees.
+
 Example C10_example :
   let X z := Leaf LXRef F0 (SStr z) in
   let call := Comp CCall (set_del F0 (Some true)) (SStr 9) [(KI 0, X 1)] in
@@ -37,3 +53,12 @@ Example C10_example :
   | Ok (_, st) => calls (log st) = [SStr 9; SStr 9] /\ dyn_paths (log st) = [[KS 1]; [KS 3]]
   | _ => False end.
 Proof. vm_compute. split; reflexivity. Qed.
+
+Example C10_example_wellformed :
+  let X z := Leaf LXRef F0 (SStr z) in
+  let call := Comp CCall (set_del F0 (Some true)) (SStr 9) [(KI 0, X 1)] in
+  let t := Comp CDict F0 SNone [(KS 2, X 3); (KS 3, call); (KS 1, Comp CCall (set_del F0 (Some true)) (SStr 9) []); (KS 4, Comp CList F0 SNone [(KI 0, X 3); (KI 1, X 1)])] in
+  WFT (recopy t).
+Proof.
+  cbn. repeat (constructor; cbn; try (intros [|[|[|[]]]]; congruence); try tauto; try discriminate); intuition congruence.
+Qed.
